@@ -9,7 +9,7 @@
 (* compute_if_present's closure and the number of its invocations).        *)
 (* Input: env TRACES = ndjson, one object per line:                        *)
 (*   {id, set (0/1), keys [..], threads [..], ev [ {e,t,op,k,tag,v,f} |    *)
-(*                                 {e,t,ok,v,tag,ni,seen,ncb,panic} ]}     *)
+(*                                 {e,t,ok,v,tag,ni,seen,pl,ncb,panic} ]} *)
 (***************************************************************************)
 EXTENDS AbsOps, FiniteSets, TLC, Json, IOUtils
 
